@@ -135,6 +135,7 @@ struct Sched {
   uint32_t spin_limit = 48;
   uint32_t weakW = 16;
   uint64_t seq_op_cap = 300000;
+  uint64_t livelock_steps = 12000;
 };
 static Sched G;
 static thread_local int t_tid = -1;
@@ -259,6 +260,7 @@ struct Arena {
 };
 static Arena AR[2] = {{A0, A0_SIZE, A0, (uint8_t*)SH0}, {A1, A1_SIZE, A1, (uint8_t*)SH1}};
 static size_t g_live_blocks[4], g_live_bytes[4];
+static uint64_t g_alloc_count[4];
 static uint32_t g_alloc_seq = 0;
 static bool g_arena_mapped = false;
 
@@ -313,6 +315,7 @@ static void* arena_alloc(size_t size, size_t align) {
   memset(sh, S_FULL, full);
   if (size & 15) sh[full] = (uint8_t)(size & 15);
   g_live_blocks[tag & 3]++;
+  g_alloc_count[tag & 3]++;
   g_live_bytes[tag & 3] += size;
   return (void*)p;
 }
@@ -381,6 +384,7 @@ uint8_t set_alloc_tag(uint8_t tag) {
 }
 size_t live_blocks(uint8_t tag) { return g_live_blocks[tag & 3]; }
 size_t live_bytes(uint8_t tag) { return g_live_bytes[tag & 3]; }
+uint64_t alloc_count(uint8_t tag) { return g_alloc_count[tag & 3]; }
 bool is_live(const void* p) {
   uintptr_t x = (uintptr_t)p;
   int ai = arena_of(x);
@@ -607,7 +611,7 @@ static void sched_point_ex(bool is_spin) {
       if (G.thr[t].state != T_NONE && G.thr[t].state != T_FINISHED) alive++;
     if (alive == 1) fail("hang", "one operation of a single-threaded execution exceeded %lu steps", (unsigned long)G.seq_op_cap);
   }
-  if (G.step - G.last_write_step > 4000 + 4 * (uint64_t)G.weakW) {
+  if (G.step - G.last_write_step > G.livelock_steps + 4 * (uint64_t)G.weakW) {
     // nobody changed shared state for a very long time although somebody was always scheduled
     int alive = 0;
     for (int t = 0; t < MAXT; ++t)
@@ -662,8 +666,11 @@ void op_end() {
   }
 }
 
+static uint64_t g_stamp_seq = 0;
 void stamp(Stamp* s) {
-  s->step = G.step;
+  // stamps are totally ordered (one thread runs at a time): a strictly increasing sequence number is the
+  // real-time order of invocations and responses, also for consecutive operations without a scheduling point
+  s->step = ++g_stamp_seq;
   if (t_tid >= 0) {
     Thr& me = G.thr[t_tid];
     memcpy(s->vc, me.cur.c, sizeof s->vc);
@@ -1431,6 +1438,7 @@ void case_begin(Shm* shm) {
   G.solo_bound = param("solo_bound", 4000);
   G.spin_limit = (uint32_t)param("spin_limit", 48);
   G.seq_op_cap = param("seq_op_cap", 300000);
+  G.livelock_steps = param("livelock_steps", 12000);
   t_tid = 0;
   G.cur = 0;
   Thr& m = G.thr[0];
